@@ -8,6 +8,9 @@ that configuration (class that escapes, or the recorded errors); issubclass and 
 Direct oracle: per fault (every element / attribute / numeric token of generated documents as a site, seven fault kinds, single and
 combined): the escaping exception is a DaeError subclass of the documented kind, never a raw exception; masked loads complete, record the
 error, keep every independent object exactly as in the undamaged load and invent none; unrelated masks still abort; the mask can be cleared.
+Document level (Pyc/Model/DocLoad.lean, Pyc/Props/C08b.lean, props/c08_docload.py): the libraries that refer to each other by id, loaded in the
+generated order; loaded_iff_good: what a completed load holds is exactly the objects that are undamaged and refer, transitively, only to such
+objects; correspondence on generated multi-library documents with several damaged objects and dangling references, under five masks.
 """
 import io
 import random
@@ -18,20 +21,24 @@ from vlib import core, snap, docgen, faults
 from props import c19
 
 PID = 'C08'
-TRANSLATORS = ['err_classes']
-LEAN_MODULES = ['Pyc.Model.Errors']
+TRANSLATORS = ['err_classes', 'load_order']
+LEAN_PROPS = ['Pyc.Props.C08', 'Pyc.Props.C08b']
+LEAN_MODULES = ['Pyc.Model.Errors', 'Pyc.Model.DocLoad']
 META = dict(
     level_text=('Proof: Pyc/Props/C08.lean proves for the loader\'s error discipline - every library loader a fold in which each per-item DaeError goes through '
                 'handleError - that an error is always recorded and re-raised iff no masked class is a superclass, that with all raised classes masked a library '
                 'holds exactly the items whose own load succeeds, in order, with all errors recorded (containment), that nothing is invented (no_invention), that the '
                 'first unmasked error aborts (unlisted_aborts), that clearing the mask restores strictness, and that undamaged objects whose references were loaded '
                 'load unchanged while dependants of a lost object become broken references; the class hierarchy is read from the source on every run. '
+                'Pyc/Props/C08b.lean lifts containment to the whole document: over the libraries that look each other up by id, in the load order read from the source '
+                '(real_order_ordered over the generated dependency table), a completed load holds exactly the good objects - undamaged and referring, transitively, only to '
+                'good objects (loaded_iff_good, real_loaded_iff_good), independent of the mask and of the errors recorded. '
                 'Which exception class each parse site raises is decided by fault enumeration on the implementation.'),
     level_note=('Trusted: Lean kernel + standard axioms; translators/err_classes.py; Pyc/Model/Errors.lean (the fold shape of the library loaders is modelled, the '
-                'per-object loaders are not); vlib/faults.py and the generators; XML well-formedness is delegated to the parser. '
+                'per-object loaders are not; Pyc/Model/DocLoad.lean reduces an object to damaged / references and leaves nodes and scenes to Pyc/Model/Refs.lean); translators/load_order.py; vlib/faults.py and the generators; XML well-formedness is delegated to the parser. '
                 'Allowed error kinds per fault kind: dangling -> BrokenRef (Incomplete/Malformed when the loader needs the target\'s data first), reference without # -> Malformed/BrokenRef, '
                 'non-numeric -> Malformed, emptied / removed child / removed attribute -> any DaeError subclass, truncated -> Malformed.'),
-    technique='Lean 4 theorems on the handleError/mask fold (containment, no invention, abort on unlisted) + AST-derived class table + fault enumeration over every site of generated documents with four ignore configurations',
+    technique='Lean 4 theorems on the handleError/mask fold (containment, no invention, abort on unlisted) and on the document-level load over the generated library order (loaded iff good) + AST-derived class table + fault enumeration over every site of generated documents with four ignore configurations',
 )
 CLASSES = ['DaeIncompleteError', 'DaeBrokenRefError', 'DaeMalformedError', 'DaeUnsupportedError']
 ALLOWED = {
@@ -308,6 +315,32 @@ def run(ctx):
                     reported.add('pair-not-ignorable')
                     ctx.violation('c08:pair-not-ignorable', 'faults %s and %s: %s escapes although DaeError is ignored' % (describe(data, s1), describe(bad1, s2), out),
                                   dict(kind='pair', base=kind, seed=seed, sites=[list(s1), list(s2)]))
+    # document level: several libraries, several damaged objects and dangling references at once
+    from props import c08_docload as dl
+    dlines, dwants, dcases = [], [], []
+    for k in range(ctx.n(60, 2500)):
+        dseed = ctx.rng.randrange(10 ** 9)
+        case = dl.gen_case(random.Random('c08dl/%s' % dseed))
+        goods, eff = dl.good_set(case)
+        ctx.case(dict(kind='docload', seed=dseed, objects=len(eff), good=len(goods)), nontrivial=0 < len(goods) < len(eff))
+        ctx.count('docload:documents')
+        res = dl.check_case(case)
+        if res and res[0] not in reported:
+            reported.add(res[0])
+            ctx.violation('c08:' + res[0], res[1], dict(kind='docload', seed=dseed))
+        for mask in dl.MASKS:
+            dlines.append(dl.model_line(case, mask))
+            dwants.append(dl.real(case, mask)[0])
+            dcases.append((dseed, mask))
+    if ctx.lean_ok and dlines:
+        for l, w, m, (dseed, mask) in zip(dlines, dwants, ctx.driver('C08b', dlines), dcases):
+            ctx.count('kernel:doc')
+            ctx.count('docload:' + w.split(' ')[0].split(':')[0])
+            got = m.split(' ')[0] if w.startswith('raise:') else m
+            if got != w and 'corr:doc' not in reported and not any(v['found_input'] for v in ctx.violations):
+                reported.add('corr:doc')
+                ctx.violation('corr:doc', 'loader and Pyc.DocLoad.loadDoc disagree under mask %r: model %r, loader %r' % (mask, m, w),
+                              dict(kind='docload-corr', seed=dseed, mask=mask, line=l), found_input=False)
     # mask clearing on the real object
     import collada
     d = collada.Collada()
@@ -347,6 +380,12 @@ def replay(ctx, rep):
         out2, _ = load(bad2, ignore=[cls('DaeError')])
         print('  strict: %s, ignoring DaeError: %s' % (out, out2))
         return out.startswith('raw:') or out2 != 'ok'
+    if rep.get('kind') == 'docload':
+        from props import c08_docload as dl
+        res = dl.check_case(dl.gen_case(random.Random('c08dl/%s' % rep['seed'])))
+        if res:
+            print('  ' + res[1])
+        return res is not None
     if rep.get('kind') == 'clear':
         import collada
         d = collada.Collada()
